@@ -9,7 +9,8 @@
    Inventory.v (regenerated from the Rust sources on every run) ties the parameters to the code: the list
    of unordered-iteration sites must be exactly the list the model accounts for. *)
 From Coq Require Import String List Permutation.
-From PVBld Require Import Generated.Inventory Pipeline Proofs.PipelineP Proofs.InventoryP.
+From PVBld Require Import Generated.Inventory Generated.CollectSites Pipeline Collect Dedup
+                          Proofs.PipelineP Proofs.InventoryP Proofs.CollectP Proofs.DedupP.
 Import ListNotations.
 
 (* single-file mode: the text written to the output file (and the -- empty -- set of side files) *)
@@ -96,3 +97,78 @@ Theorem C17_inventory :
   forallb (fun p => existsb (String.eqb p) (flat_map (fun sr => params_of (snd sr)) accounted)) model_params = true.
 Proof. exact (conj inventory_accounted (conj inventory_justified inventory_params)). Qed.
 Print Assumptions C17_inventory.
+
+(* ---- ignore_unused + Builder::touch: which items are generated, and in which order (Collect.v) ------------------------------------
+   Full statement wanted: "the emitted item sequence is a function of the SET of touched items and the document".  What holds:
+   (a) the SET of generated items is exactly the set of items reachable from the roots, whatever the order in which the roots are
+       walked and whatever the iteration order of the fixed-seed set (C17_collect_order_free);
+   (b) the SEQUENCE is `fx_iter (insertion history)`, and the insertion history does depend on the order of the roots
+       (C17_collect_history_order_refuted): the code gets a deterministic sequence only because the touch list is a Vec walked in the
+       user's order and every hash container on the path is fixed-seed -- an obligation on the source, discharged by
+       C17_collect_iterations (every iteration of collect / collect_items / duplicate regenerated and classified; seeded change C17d
+       put a std HashMap group map on that path and breaks it). *)
+Theorem C17_collect_order_free :
+  forall succs U fx_iter pi pi' input consts touches,
+    (forall d c, In d U -> In c (succs d) -> In c U) ->
+    (forall r, In r (input ++ touch_roots touches ++ consts) -> In r U) ->
+    (forall h, Permutation (fx_iter h) h) ->
+    perm_fun pi -> perm_fun pi' ->
+    Permutation (codegen_items fx_iter pi succs (S (length U)) input consts touches)
+                (codegen_items fx_iter pi' succs (S (length U)) input consts touches).
+Proof. exact collect_set_order_free. Qed.
+Print Assumptions C17_collect_order_free.
+
+(* collect_items is reachability: every generated item once, and exactly the items some root (or Const item) reaches *)
+Theorem C17_collect_reachable :
+  forall succs U roots consts,
+    (forall d c, In d U -> In c (succs d) -> In c U) ->
+    (forall r, In r (roots ++ consts) -> In r U) ->
+    let s := collect_items succs (S (length U)) roots consts in
+    NoDup s /\ forall x, In x s <-> exists r, In r (roots ++ consts) /\ reaches succs r x.
+Proof. exact (fun succs U roots consts Hc Hr => collect_items_spec succs U Hc roots consts Hr). Qed.
+Print Assumptions C17_collect_reachable.
+
+Theorem C17_collect_history_order_refuted :
+  exists (pi pi' : list touch_entry -> list touch_entry),
+    perm_fun pi /\ perm_fun pi' /\
+    codegen_items (fun h => h) pi (fun _ => []) 3 [] [] two_touches = [10; 20] /\
+    codegen_items (fun h => h) pi' (fun _ => []) 3 [] [] two_touches = [20; 10].
+Proof. exact collect_history_order_refuted. Qed.
+Print Assumptions C17_collect_history_order_refuted.
+
+Theorem C17_collect_iterations :
+  map fst accounted_iterations = collect_iterations /\
+  filter (fun e => match snd e with OSeeded _ => true | _ => false end) accounted_iterations =
+    [("collect"%string, "self.entry_map = location_map .clone() .into_iter() .into_group_map_by(|item| item.1.clone());"%string, OSeeded "pi_entry")] /\
+  map fst collect_source_digests = ["collect"; "collect_items"; "duplicate"; "write_items"]%string.
+Proof.
+  exact (conj (proj1 collect_iterations_accounted) (conj (proj2 collect_iterations_accounted) (f_equal (map fst) collect_sources_pinned))).
+Qed.
+Print Assumptions C17_collect_iterations.
+
+(* ---- Builder::dedup (Dedup.v): one scratch map per module group ----------------------------------------------------------------------
+   for any structural equality that is reflexive and transitive: the survivors of a module group are the first items of their classes (same
+   listed name, equal) in the group's own order, and groups do not interact -- whatever order the groups are processed in *)
+Theorem C17_dedup_per_module :
+  forall (item : Type) (name : item -> string) (equal : item -> item -> bool) (dedups : list string),
+    (forall a, equal a a = true) ->
+    (forall a b c, equal a b = true -> equal b c = true -> equal a c = true) ->
+    (forall its, written_group item name equal dedups its = first_of_class item name equal dedups [] its) /\
+    (forall (pi : list (list item) -> list (list item)) groups, perm_fun pi ->
+       Permutation (written_groups item name equal dedups (pi groups)) (written_groups item name equal dedups groups) /\
+       forall g, In g groups -> In (first_of_class item name equal dedups [] g) (written_groups item name equal dedups (pi groups))).
+Proof.
+  exact (fun item name equal dedups R T =>
+           conj (written_group_first_of_class item name equal dedups R T)
+                (written_groups_schedule_free item name equal dedups R T)).
+Qed.
+Print Assumptions C17_dedup_per_module.
+
+(* one map shared by the groups a worker processes one after the other (seeded change C17c): who survives depends on the order *)
+Theorem C17_dedup_shared_map_refuted :
+  let g1 := [(1, 0)] in let g2 := [(2, 0)] in
+  written_shared (nat * nat) br_name br_equal ["BaseResp"%string] [] [g1; g2] = [[(1, 0)]; []] /\
+  written_shared (nat * nat) br_name br_equal ["BaseResp"%string] [] [g2; g1] = [[(2, 0)]; []] /\
+  written_groups (nat * nat) br_name br_equal ["BaseResp"%string] [g1; g2] = [[(1, 0)]; [(2, 0)]].
+Proof. exact dedup_shared_map_refuted. Qed.
+Print Assumptions C17_dedup_shared_map_refuted.
